@@ -67,6 +67,21 @@ type c43Layer struct {
 	N int    `json:"n"`
 }
 
+func c43Chain(src string, layers []c43Layer) string {
+	d := src
+	for _, l := range layers {
+		switch l.K {
+		case "map":
+			d = "Map(" + d + "," + l.F + ")"
+		case "filter":
+			d = "Filter(" + d + "," + l.P + ")"
+		default:
+			d = fmt.Sprintf("Limit(%s,%d)", d, l.N)
+		}
+	}
+	return d
+}
+
 type c43Sys struct {
 	lv  []*c43Count // level 0 = source
 	rd  *c43Reader  // JSON source only
@@ -238,7 +253,7 @@ func TestVerifC43(t *testing.T) {
 					what = s.close(st.Lvl, st.MinCl)
 				}
 				if what != "" {
-					res = M{"i": i, "ok": false, "step": k + 1, "what": fmt.Sprintf("%s xs=%v bad=%d: %s", b.Src, b.Xs, b.Bad, what)}
+					res = M{"i": i, "ok": false, "step": k + 1, "what": fmt.Sprintf("%s xs=%v bad=%d: %s", c43Chain(b.Src, b.Layers), b.Xs, b.Bad, what)}
 					break
 				}
 			}
@@ -255,7 +270,7 @@ func TestVerifC43(t *testing.T) {
 					rr, v := c43Int(st[0]) == 1, c43Int(st[1])
 					if what := s.next(rr, v, c43Ints(st[2])); what != "" {
 						res = M{"i": i, "ok": false, "step": k + 1,
-							"what": fmt.Sprintf("%s xs=%v bad=%d: %s (yielded so far %v, list semantics %v)", c.Src, r.Xs, r.Bad, what, got, r.Den)}
+							"what": fmt.Sprintf("%s xs=%v bad=%d: %s (yielded so far %v, list semantics %v)", c43Chain(c.Src, c.Layers), r.Xs, r.Bad, what, got, r.Den)}
 						break runs
 					}
 					if rr {
@@ -264,7 +279,7 @@ func TestVerifC43(t *testing.T) {
 				}
 				for k, st := range r.C {
 					if what := s.close(c43Int(st[0]), c43Ints(st[1])); what != "" {
-						res = M{"i": i, "ok": false, "step": len(r.N) + k + 1, "what": fmt.Sprintf("%s xs=%v bad=%d: %s", c.Src, r.Xs, r.Bad, what)}
+						res = M{"i": i, "ok": false, "step": len(r.N) + k + 1, "what": fmt.Sprintf("%s xs=%v bad=%d: %s", c43Chain(c.Src, c.Layers), r.Xs, r.Bad, what)}
 						break runs
 					}
 				}
